@@ -58,3 +58,70 @@ def correspondence(ctx, drv, n_cases):
             d.append("array length")
         if d:
             ctx.disagreement("fast_SIS-tape:" + ";".join(d)[:300], dict(rep, diffs=d))
+
+
+def sis_master(G, nodes, tau, gamma, ew, nw, infs, T):
+    """exact distribution of the SIS state vector at time T (2^N states)"""
+    import itertools
+    import numpy as np
+    from scipy.linalg import expm
+    N = len(nodes)
+    idx = {u: i for i, u in enumerate(nodes)}
+    states = list(itertools.product((0, 1), repeat=N))
+    sid = {s: i for i, s in enumerate(states)}
+    Q = np.zeros((len(states), len(states)))
+    for s in states:
+        a = sid[s]
+        for i, u in enumerate(nodes):
+            if s[i] == 1:
+                r = gamma * nw(u)
+                t = list(s); t[i] = 0
+                Q[a, sid[tuple(t)]] += r; Q[a, a] -= r
+                for v in G.neighbors(u):
+                    j = idx[v]
+                    if s[j] == 0:
+                        r = tau * ew(u, v)
+                        t = list(s); t[j] = 1
+                        Q[a, sid[tuple(t)]] += r; Q[a, a] -= r
+    p0 = np.zeros(len(states)); p0[sid[tuple(1 if u in infs else 0 for u in nodes)]] = 1
+    return states, p0 @ expm(Q * T)
+
+
+def law_search(ctx, runs=20000):
+    """failing-input search after a broken correspondence: seeded Monte-Carlo state distribution of the real fast_SIS
+    at time T on tiny graphs vs the exact master equation, 6-sigma threshold per state"""
+    import random
+    import numpy as np, networkx as nx, EoN
+    cases = []
+    G = nx.path_graph(2); cases.append((G, {}, [0], 1.5, 1.0, 1.0))
+    G = nx.path_graph(3)
+    for (u, v), w in zip(G.edges(), (0.5, 2.0)):
+        G.edges[u, v]["w"] = w
+    for u, w in zip(G, (1.0, 2.0, 0.5)):
+        G.nodes[u]["r"] = w
+    cases.append((G, dict(transmission_weight="w", recovery_weight="r"), [0], 2.0, 1.0, 1.0))
+    G = nx.complete_graph(3); cases.append((G, {}, [0, 1], 1.0, 0.7, 1.3))
+    G = nx.star_graph(3); cases.append((G, {}, [1], 2.5, 1.5, 0.8))
+    for G, kw, infs, T, tau, gamma in cases:
+        nodes = list(G)
+        ew = (lambda u, v: G.edges[u, v]["w"]) if kw else (lambda u, v: 1.0)
+        nw = (lambda u: G.nodes[u]["r"]) if kw else (lambda u: 1.0)
+        states, p = sis_master(G, nodes, tau, gamma, ew, nw, set(infs), T)
+        cnt = {s: 0 for s in states}
+        random.seed(12345); np.random.seed(12345)
+        for _ in range(runs):
+            sim = EoN.fast_SIS(G, tau, gamma, initial_infecteds=infs, tmax=T + 1, return_full_data=True, **kw)
+            st = sim.get_statuses(time=T)
+            cnt[tuple(1 if st[u] == "I" else 0 for u in nodes)] += 1
+        worst = None
+        for s, pe in zip(states, p):
+            sd = max((pe * (1 - pe) / runs) ** 0.5, 1e-9)
+            z = abs(cnt[s] / runs - pe) / sd
+            if pe * runs > 20 and (worst is None or z > worst[0]):
+                worst = (z, s, cnt[s] / runs, float(pe))
+        ctx.count("fast_SIS:law-search-cases")
+        if worst and worst[0] > 6:
+            ctx.violation("fast_SIS: state distribution at time T differs from the master equation (%.1f sigma: state %s simulated %.4f exact %.4f)"
+                          % worst, dict(entry="fast_SIS", stream="master-equation", n=G.order(), edges=list(map(list, G.edges())),
+                                        weighted=bool(kw), infs=infs, T=T, tau=tau, gamma=gamma, seed=12345, runs=runs,
+                                        state=list(worst[1]), simulated=worst[2], exact=worst[3]))
